@@ -225,6 +225,91 @@ Theorem C15_projection_optimal : forall m D sol, wf m D -> grad_small 0 m D sol 
 Proof. exact grad_small_exact_optimal. Qed.
 Print Assumptions C15_projection_optimal.
 
+
+(* ================================================================ round 5 *)
+(* ---------------------------------------------------------------- HMF.__init__ / iterate as read from the source *)
+(* the normalisation statements of the loop (np.repeat idioms, their axes and operators) are the reference normalise *)
+Theorem C15_normalise_generated_is_reference : forall n a g, normalise_gen n a g = normalise n a g.
+Proof. exact normalise_gen_eq. Qed.
+Print Assumptions C15_normalise_generated_is_reference.
+(* one pass of the loop: default mode = coefficient update, component update, rotation, normalisation; non-negative mode =
+   the two multiplicative updates, normalisation (in BOTH modes); 128 initial coefficient updates in non-negative mode *)
+Theorem C15_iterate_structure :
+  g_iter_std = [SAstep; SGstep; SReorder; SNormalise] /\ g_iter_nn = [SAstepNN; SGstepNN; SNormalise] /\
+  g_nn_init_steps = [SAstepNN] /\ g_norm_g_axis = ScaleRows /\ g_norm_a_axis = ScaleCols.
+Proof. exact iterate_structure. Qed.
+Print Assumptions C15_iterate_structure.
+(* every seed given by the caller, 0 included, is stored by __init__ and passed to numpy.random.seed before whiten/kmeans *)
+Theorem C15_seed_always_applied :
+  (forall z, g_seed_test (g_seed_store (Some z)) = true) /\ g_seed_test (g_seed_store None) = false.
+Proof. exact seed_always_applied. Qed.
+Print Assumptions C15_seed_always_applied.
+Theorem C15_n_iter_defaults : g_n_iter None true = 2048%Z /\ g_n_iter None false = 20%Z /\ forall v b, g_n_iter (Some v) b = v.
+Proof. exact n_iter_defaults. Qed.
+Print Assumptions C15_n_iter_defaults.
+(* default mode without smoothing: a-step, then g-step from the NEW coefficients: chi-square falls (or stays) twice *)
+Theorem C15_iteration_std_monotone : forall s w a g a1 g1,
+  astep s w g = Some a1 -> gstep s w a1 g None = Some g1 ->
+  (2 <= ncols s)%nat -> (0 < length s)%nat ->
+  Forall (fun r => length r = ncols s) s -> Forall (fun r => length r = ncols s) w ->
+  length w = length s -> length a = length s -> rows_len (length g) a -> ncols g = ncols s ->
+  Forall (Forall (fun v => 0 <= v)) w ->
+  badness s w a1 g1 None <= badness s w a1 g None /\ badness s w a1 g None <= badness s w a g None.
+Proof. exact iteration_std_monotone. Qed.
+Print Assumptions C15_iteration_std_monotone.
+(* non-negative mode: every step of the pass (both updates AND the normalisation) keeps both factors >= 0 *)
+Theorem C15_iteration_nn_nonneg : forall s w eps nw rec stp st st',
+  In stp g_iter_nn -> mnn s -> mnn w -> vnn nw -> state_nn st ->
+  hmf_apply s w eps nw rec stp st = Some st' -> state_nn st'.
+Proof. exact iteration_nn_nonneg. Qed.
+Print Assumptions C15_iteration_nn_nonneg.
+
+(* the reduced evaluation of badness used by run_case computes badness *)
+Theorem C15_badness_r_correct : forall s w a g eps, badness_r s w a g eps == badness s w a g eps.
+Proof. exact badness_r_correct. Qed.
+Print Assumptions C15_badness_r_correct.
+
+(* ---------------------------------------------------------------- pca_solve as read from the source *)
+Theorem C15_pca_generated :
+  (forall mi f sw y, g_pca_filt mi f sw y == (mi * f + sw * y) / (mi + sw)) /\
+  (forall v m, g_pca_weight (g_pca_maskivar v m) == v * m) /\
+  (forall v, g_pca_synw_good v = negb (Qeq_bool v 0)) /\ g_pca_synw_default == 1 /\
+  (forall v, g_pca_inmask v = negb (Qeq_bool v 0)) /\
+  (forall q i m, g_pca_continue q i m = negb q && Nat.leb i m) /\
+  (forall k, g_pca_nreturn None k = k) /\ (forall v k, g_pca_nreturn (Some v) k = v) /\
+  g_pca_usemask_axis = 0%nat.
+Proof. exact pca_generated. Qed.
+Print Assumptions C15_pca_generated.
+(* coefficients of one object in one pass = weighted least-squares projection on the first nkeep derived variables *)
+Theorem C15_pca_obj_step_optimal : forall nkeep pres synw fi vi mi ac fl,
+  pca_obj_step nkeep pres synw fi vi mi = Some (ac, fl) -> wf nkeep (pca_obj_data nkeep pres fi vi mi) ->
+  length ac = nkeep /\
+  (forall d, gdot (pca_obj_data nkeep pres fi vi mi) ac d == 0) /\
+  forall z, length z = nkeep -> chi2 (pca_obj_data nkeep pres fi vi mi) ac <= chi2 (pca_obj_data nkeep pres fi vi mi) z.
+Proof. exact pca_obj_step_optimal. Qed.
+Print Assumptions C15_pca_obj_step_optimal.
+
+(* ---------------------------------------------------------------- what acceptance by the checkers means, for all inputs *)
+Theorem C15_inverse_ok_exact : forall cov N, inverse_ok 0 cov N = true ->
+  length cov = length N /\
+  forall i j r c, nth_error cov i = Some r -> nth_error (transpose N) j = Some c -> (j < length N)%nat ->
+    dot r c == (if Nat.eqb i j then 1 else 0).
+Proof. exact inverse_ok_exact. Qed.
+Print Assumptions C15_inverse_ok_exact.
+(* clause `chi2-not-minimal`: compared with the solver's answer, it bounds chi-square against EVERY coefficient vector *)
+Theorem C15_near_optimal_sound : forall m D ia xopt t e, wf m D -> wls_solve m D = Some xopt -> 0 <= t ->
+  Qle_bool (chi2r D ia) (chi2r D xopt * (1 + t) + e) = true ->
+  forall z, length z = m -> chi2 D ia <= chi2 D z * (1 + t) + e.
+Proof. exact near_optimal_sound. Qed.
+Print Assumptions C15_near_optimal_sound.
+Theorem C15_eig_ok_exact : forall C vals vecs n2, eig_ok 0 C vals vecs n2 = true ->
+  descending vals = true /\
+  (forall k l v, nth_error vals k = Some l -> nth_error vecs k = Some v -> veq (mat_vec C v) (vscale l v)) /\
+  (forall j k vj vk nk, nth_error vecs j = Some vj -> nth_error vecs k = Some vk -> nth_error n2 k = Some nk ->
+     dot vj vk == (if Nat.eqb j k then nk else 0)).
+Proof. exact eig_ok_exact. Qed.
+Print Assumptions C15_eig_ok_exact.
+
 (* ---------------------------------------------------------------- non-vacuity witnesses *)
 Example C15_example_chi2 :
   match computechi2 [1; 3; 2; 5] [1; 1; 0; 2] [[1; 0]; [1; 1]; [1; 2]; [1; 3]] with
@@ -235,4 +320,29 @@ Example C15_example_gstep_eps :
   match gstep [[1; 2; 3]; [2; 1; 0]; [1; 1; 1]] [[1; 1; 1]; [1; 0; 1]; [2; 1; 1]] [[1; 0]; [0; 1]; [1; 1]] [[1; 1; 1]; [1; 2; 1]] (Some (1 # 2)) with
   | Some g' => Nat.eqb (length g') 2
   | None => false end = true.
+Proof. vm_compute. reflexivity. Qed.
+(* one pass of the non-negative loop as a checked trace (g = [[3;4;0;0] ...]: mean squares with rational roots) *)
+Example C15_example_iter_nn :
+  let s := [[1; 2]; [2; 1]] in let w := [[1; 1]; [1; 1]] in
+  let a := [[1]; [1]] in let g := [[1; 1]] in
+  match hmf_apply s w None [1] (a, g) SAstepNN (a, g) with
+  | Some (a1, _) => match hmf_apply s w None [1] (a, g) SGstepNN (a1, g) with
+                    | Some (_, g1) => veq_bool (vred (hd [] g1)) [1; 1] && mat_nonneg a1
+                    | None => false end
+  | None => false end = true.
+Proof. vm_compute. reflexivity. Qed.
+Example C15_example_iter_std :
+  let s := [[1; 2; 3]; [2; 1; 0]; [1; 1; 2]] in let w := [[1; 1; 1]; [1; 1; 1]; [2; 1; 1]] in
+  let g := [[1; 1; 1]; [1; 2; 4]] in
+  match astep s w g with
+  | Some a1 => match gstep s w a1 g None with Some g1 => Qle_bool (badness s w a1 g1 None) (badness s w a1 g None) | None => false end
+  | None => false end = true.
+Proof. vm_compute. reflexivity. Qed.
+Example C15_example_pca_step :
+  match pca_step 1 [[1; 2; 3]; [2; 4; 7]] [[1; 1; 0]; [1; 2; 1]] [[1; 1; 0]; [1; 1; 1]] [[1; 0]; [2; 1]; [3; 1]] with
+  | Some [(ac0, f0); (ac1, f1)] => veq_bool ac0 [1] && Nat.eqb (length f1) 3
+  | _ => false end = true.
+Proof. vm_compute. reflexivity. Qed.
+Example C15_example_checkers_exact :
+  inverse_ok 0 [[1 # 2; 0]; [0; 1 # 4]] [[2; 0]; [0; 4]] && eig_ok 0 [[2; 0]; [0; 1]] [2; 1] [[1; 0]; [0; 1]] [1; 1] = true.
 Proof. vm_compute. reflexivity. Qed.
